@@ -60,6 +60,12 @@ CLAIMS = {
         note="Partial: goroutine scheduling (C16) and map iteration inside AST-walking code are outside; the gob encoder is trusted. Found and fixed (two fix: commits): annotation replay order and "
              "controlled-trigger activation order were map-iteration dependent.",
     ),
+    "C15": dict(
+        text="For every pair of function-based key kinds (and variable-based kinds) over one declaring object, with symbolic identifier names, indices and call-site locations, the solver shows "
+             "that equal site identities imply the same key and depth (and conversely); and that an importer re-keys a dependency's published object to exactly the recorded identity for every "
+             "local position its loader may report.",
+        note="Bounded string lengths and index ranges (see evidence). toPosition/objectPath are contract stubs under symx and real in the native replay.",
+    ),
 }
 
 # reasons for every property not (yet) claimed
@@ -68,5 +74,5 @@ NOT_APPLICABLE = {
     "C16": "The quantifier is goroutine interleavings over the whole analysis heap; symx has no thread model and no installed solver-based engine explores Go schedules.",
     "C18": "Everything the property depends on is environment (process cwd captured at init, filepath.Rel, driver cwd); after stubbing those by contract the residual repo code is a one-line wrapper.",
 }
-for _p in ["C02", "C07", "C08", "C09", "C14", "C15", "C17", "C20"]:
+for _p in ["C02", "C07", "C08", "C09", "C14", "C17", "C20"]:
     NOT_APPLICABLE.setdefault(_p, "kernel check not yet registered (in progress; see DESIGN.md section 4)")
